@@ -317,19 +317,24 @@ abbrev Sched (V : Type) := Nat → List (Key × Except Err V) → List (Key × E
 
 def Sched.id {V} : Sched V := fun _ l => l
 
+/-- run one task's node body (a key without a node keeps its input) -/
+def execOne {V} (r : Runner V) (t : Key × V) : Key × Except Err V :=
+  match r.node? t.1 with
+  | none => (t.1, .ok t.2)
+  | some n => (t.1, n.act t.2)
+
+/-- collect one finished task: a failure is wrapped with the node key
+    (`wrapGraphNodeError` in `resolveInterruptCompletedTasks`) -/
+def collectOne {V} (t : Key × Except Err V) : Except Err (Done V) :=
+  match t.2 with
+  | .ok o => .ok (t.1, o)
+  | .error e => .error (e.wrapNode t.1)
+
 /-- run the node bodies of one batch and collect them in the schedule's order; the first
-    failure in that order is the step's error, wrapped with the node key
-    (`wrapGraphNodeError` in `resolveInterruptCompletedTasks`). -/
+    failure in that order is the step's error. -/
 def runTasks {V} (r : Runner V) (sched : Sched V) (step : Nat) (ts : List (Key × V)) :
     Except Err (List (Done V)) :=
-  let results : List (Key × Except Err V) := ts.map (fun (t : Key × V) =>
-    match r.node? t.1 with
-    | none => (t.1, .ok t.2)
-    | some n => (t.1, n.act t.2))
-  (sched step results).mapM (fun (t : Key × Except Err V) =>
-    match t.2 with
-    | .ok o => pure (t.1, o)
-    | .error e => throw (e.wrapNode t.1))
+  (sched step (ts.map (execOne r))).mapM collectOne
 
 /-- one entry of the superstep trace: the tasks submitted in that step -/
 abbrev Trace (V : Type) := List (List (Key × V))
